@@ -4,6 +4,7 @@ import (
 	"fmt"
 	"os"
 	"os/exec"
+	"sync"
 
 	"github.com/creack/pty"
 	"github.com/scrapli/scrapligo/util"
@@ -36,7 +37,27 @@ type System struct {
 	OpenBin   string
 	OpenArgs  []string
 	fd        *os.File
+	fdLock    sync.Mutex
 	c         *exec.Cmd
+}
+
+// getFd / setFd guard the fd field itself (never the blocking calls made on the file): Close runs
+// without the transport lock when a read is blocked, so the field is shared between goroutines.
+func (t *System) getFd() *os.File {
+	t.fdLock.Lock()
+	defer t.fdLock.Unlock()
+
+	return t.fd
+}
+
+func (t *System) setFd(fd *os.File) *os.File {
+	t.fdLock.Lock()
+	defer t.fdLock.Unlock()
+
+	old := t.fd
+	t.fd = fd
+
+	return old
 }
 
 func (t *System) buildOpenArgs(a *Args) {
@@ -127,7 +148,9 @@ func (t *System) open(a *Args) error {
 
 	var err error
 
-	t.fd, err = pty.StartWithSize(
+	var fd *os.File
+
+	fd, err = pty.StartWithSize(
 		t.c,
 		&pty.Winsize{
 			// ignoring linters we know these will fit in uint16
@@ -135,6 +158,9 @@ func (t *System) open(a *Args) error {
 			Cols: uint16(a.TermWidth),  //nolint:gosec
 		},
 	)
+
+	t.setFd(fd)
+
 	if err != nil {
 		a.l.Criticalf("encountered error spawning pty, error: %s", err)
 
@@ -157,7 +183,12 @@ func (t *System) openNetconf(a *Args) error {
 
 	var err error
 
-	t.fd, err = pty.Start(t.c)
+	var fd *os.File
+
+	fd, err = pty.Start(t.c)
+
+	t.setFd(fd)
+
 	if err != nil {
 		a.l.Criticalf("encountered error spawning pty, error: %s", err)
 
@@ -201,9 +232,7 @@ func (t *System) Open(a *Args) error {
 
 // Close closes the System transport.
 func (t *System) Close() error {
-	err := t.fd.Close()
-
-	t.fd = nil
+	err := t.setFd(nil).Close()
 
 	// t.c.ProcessState is always nil in our case
 	if t.c != nil && t.c.Process != nil {
@@ -218,7 +247,7 @@ func (t *System) Close() error {
 
 // IsAlive returns true if the System transport file descriptor is not nil.
 func (t *System) IsAlive() bool {
-	return t.fd != nil
+	return t.getFd() != nil
 }
 
 // Read reads n bytes from the transport.
@@ -228,7 +257,7 @@ func (t *System) Read(n int) ([]byte, error) {
 	// but it doesn't seem possible with pty implementation
 	// see https://github.com/creack/pty/pull/167
 	// and https://github.com/creack/pty/issues/174
-	n, err := t.fd.Read(b)
+	n, err := t.getFd().Read(b)
 	if err != nil {
 		return nil, err
 	}
@@ -238,7 +267,7 @@ func (t *System) Read(n int) ([]byte, error) {
 
 // Write writes bytes b to the transport.
 func (t *System) Write(b []byte) error {
-	_, err := t.fd.Write(b)
+	_, err := t.getFd().Write(b)
 
 	return err
 }
